@@ -1163,12 +1163,37 @@ impl AsyncWrite for ClientEndpoint {
         Poll::Ready(Ok(n))
     }
 
+    // The library as it stands neither flushes nor shuts the transport down. A change that
+    // does meets what a broken socket or a TLS layer gives it: once the write side has failed,
+    // flushing and shutting down fail too (with the same kind).
     fn poll_flush(self: Pin<&mut Self>, _cx: &mut Context<'_>) -> Poll<io::Result<()>> {
-        Poll::Ready(Ok(()))
+        let mut w = self.world.lock().unwrap_or_else(|e| e.into_inner());
+        w.write_side_op("flush")
     }
 
     fn poll_shutdown(self: Pin<&mut Self>, _cx: &mut Context<'_>) -> Poll<io::Result<()>> {
-        Poll::Ready(Ok(()))
+        let mut w = self.world.lock().unwrap_or_else(|e| e.into_inner());
+        w.write_side_op("shutdown")
+    }
+}
+
+impl World {
+    fn write_side_op(&mut self, what: &str) -> Poll<io::Result<()>> {
+        match self.write_err.clone() {
+            Some(kind) => {
+                self.log(Ev::Director(format!("{} on the failed write side", what)));
+                let seq = self.log(Ev::WriteErr(kind.clone()));
+                if self.client_observed_end.is_none() {
+                    self.client_observed_end = Some(seq);
+                    self.observed_kind = Some("write_err".into());
+                }
+                Poll::Ready(Err(io::Error::new(
+                    error_kind(&kind),
+                    "simulated write-side error",
+                )))
+            }
+            None => Poll::Ready(Ok(())),
+        }
     }
 }
 
